@@ -21,6 +21,14 @@ offers a predicate instead of a value.
 import copy
 
 
+def fix_blockname(name):
+    """TOUGH2 reads a name as (a3, i2): 'AB1 5' and 'AB105' are the same block, and PyTOUGH keeps the form
+    with the zero - a blank in column 4 between digits in columns 3 and 5 becomes '0'."""
+    if len(name) == 5 and name[2].isdigit() and name[4].isdigit() and name[3] == ' ':
+        return name[:3] + '0' + name[4]
+    return name
+
+
 class ModelError(Exception):
     """The documentation says this call raises (or is not meaningful)."""
 
@@ -148,9 +156,12 @@ class GridModel(object):
                     cinfo[pair] = self.cinfo[pair]
             self.conns, self.cinfo = conns, cinfo
 
-    def rename_blocks(self, blockmap):
+    def rename_blocks(self, blockmap, fix_blocknames=True):
         """Every block whose name is a key of the mapping takes the mapped name - all at once, so swaps
-        and cycles are ordinary maps.  Connections follow their blocks."""
+        and cycles are ordinary maps.  Connections follow their blocks.  With fix_blocknames (the default)
+        the names in the mapping, keys and values, are first 'fixed' with fix_blockname()."""
+        if fix_blocknames:
+            blockmap = dict((fix_blockname(k), fix_blockname(v)) for k, v in blockmap.items())
         f = lambda n: blockmap.get(n, n)
         self.blocks = [f(n) for n in self.blocks]
         self.binfo = {f(n): i for n, i in self.binfo.items()}
